@@ -47,7 +47,8 @@ class IP:
     def lift(o):
         if isinstance(o, IP):
             return o
-        if isinstance(o, bool) or not isinstance(o, int):
+        from fractions import Fraction
+        if isinstance(o, bool) or not isinstance(o, (int, Fraction)):
             raise OutOfSubset(f'coefficient arithmetic with {type(o).__name__}')
         return IP({(): o} if o else {})
 
@@ -73,7 +74,8 @@ class IP:
         return IP.lift(o) + (-self)
 
     def __mul__(self, o):
-        if isinstance(o, int) and not isinstance(o, bool):
+        from fractions import Fraction
+        if isinstance(o, (int, Fraction)) and not isinstance(o, bool):
             return IP({m: v * o for m, v in self.c.items()} if o else {})
         o = IP.lift(o)
         r = {}
@@ -87,6 +89,17 @@ class IP:
                     r.pop(m, None)
         return IP(r)
     __rmul__ = __mul__
+
+    def __truediv__(self, o):
+        from fractions import Fraction
+        if isinstance(o, IP):
+            if set(o.c) != {()}:
+                raise OutOfSubset('division by a non-constant polynomial')
+            o = o.c[()]
+        if isinstance(o, bool) or not isinstance(o, (int, Fraction)) or o == 0:
+            raise OutOfSubset(f'division of a coefficient by {o!r}')
+        f = Fraction(1, o) if isinstance(o, int) else 1 / o
+        return IP({m: v * f for m, v in self.c.items()})
 
     def __bool__(self):
         return bool(self.c)
@@ -152,6 +165,8 @@ class RefMV:
     def __mul__(self, o):
         if isinstance(o, int) and not isinstance(o, bool):
             return RefMV(self.world, {k: v * o for k, v in self._need().items() if o})
+        if isinstance(o, IP):           # a coefficient (scalar polynomial) as factor
+            return RefMV(self.world, {k: w for k, v in self._need().items() if (w := v * o)})
         if not isinstance(o, RefMV):
             raise OutOfSubset(f'product of a multivector with {type(o).__name__}')
         A, B = self._need(), o._need()
@@ -161,7 +176,7 @@ class RefMV:
         return RefMV(self.world, _gp(A, B, self.world['sig']))
 
     def __rmul__(self, o):
-        if isinstance(o, int) and not isinstance(o, bool):
+        if isinstance(o, (int, IP)) and not isinstance(o, bool):
             return self * o
         raise OutOfSubset(f'product of {type(o).__name__} with a multivector')
 
@@ -180,6 +195,8 @@ class RefMV:
         return self._filtered(o, lambda r, s_, t: t == r + s_)
 
     def __sub__(self, o):
+        if isinstance(o, (IP, int)) and not isinstance(o, bool):        # a scalar is the multivector o * 1
+            o = RefMV(self.world, {0: IP.lift(o)} if IP.lift(o) else {})
         if not isinstance(o, RefMV):
             raise OutOfSubset('difference with a non-multivector')
         R = dict(self._need())
@@ -188,12 +205,16 @@ class RefMV:
         return RefMV(self.world, {k: v for k, v in R.items() if v})
 
     def __add__(self, o):
+        if isinstance(o, (IP, int)) and not isinstance(o, bool):
+            o = RefMV(self.world, {0: IP.lift(o)} if IP.lift(o) else {})
         if not isinstance(o, RefMV):
             raise OutOfSubset('sum with a non-multivector')
         R = dict(self._need())
         for k, v in o._need().items():
             R[k] = R.get(k, 0) + v
         return RefMV(self.world, {k: v for k, v in R.items() if v})
+
+    __radd__ = __add__
 
     def __neg__(self):
         return RefMV(self.world, {k: -v for k, v in self._need().items()})
@@ -407,3 +428,74 @@ def vc_compositions_generic(H, tier='quick'):
                                'coefficient is the same polynomial (no blade dropped unless identically zero)',
                                not failing, meta={'failing_shapes': failing[:6]})
                 H.run_paths(fuc, f'generic,d={d},signature={sig}', body)
+
+
+class _Chains:
+    """AdditionChains(limit) as used by power_supply: chains come from the *real* minimal_chains body, and each chain handed out
+    is checked to be an addition chain for n (every element the sum of two earlier ones, last element n)."""
+
+    def __init__(self, H, ctx, limit):
+        fuc = H.fn(REL, 'AdditionChains.minimal_chains')
+        me = sym('self', attrs={'limit': limit})
+        self.chains = H.closure(Interp(ctx, source_name=REL), fuc)(me)
+        self.ctx = ctx
+
+    def __getitem__(self, n):
+        ch = self.chains[n]
+        ok = ch[0] == 1 and ch[-1] == n and all(any(ch[i] == ch[a] + ch[b] for a in range(i) for b in range(i)) for i in range(1, len(ch)))
+        self.ctx.oblige(f'AdditionChains[{n}] is an addition chain ending in {n}', bool(ok), meta={'chain': repr(ch)})
+        return ch
+
+
+def vc_shirokov_small(H, tier='quick'):
+    """codegen_shirokov_inv is dimension-agnostic code (used by kingdon for d >= 6, where a generic element has 64 indeterminates).
+    Its real body (with power_supply and AdditionChains.minimal_chains) is interpreted on generic elements of *small* algebras,
+    d <= 3 (thorough: d = 4 for a few signatures): x * adj == adj * x == denom as polynomial identities over Q.  This proves the
+    code correct where it can be decided; for d >= 6 the same code runs on more indeterminates (bounded stand-in)."""
+    fuc = H.fn(REL, 'codegen_shirokov_inv')
+    for d in (1, 2, 3, 4):
+        sigs = [list(s_) for s_ in itertools.product([1, -1, 0], repeat=d)]
+        if d == 4:
+            sigs = [] if tier == 'quick' else [[1, 1, 1, 1], [1, 1, 1, -1], [0, 1, 1, 1], [1, -1, 1, -1]]
+        for sig in sigs:
+            def body(ctx, d=d, sig=sig):
+                world, x = _generic(d, sig)
+                env = {'Fraction': Frac, 'AdditionChains': lambda limit: _Chains(H, ctx, limit)}
+                r = H.closure(Interp(ctx, source_name=REL), fuc, env)(x, symbolic=True)
+                ok = isinstance(r, Frac) and isinstance(r[0], RefMV) and isinstance(r[1], IP) and r[0].lazy is None
+                ctx.oblige('symbolic=True returns Fraction(adjugate, denom)', bool(ok), meta={'got': repr(r)[:200]})
+                if not ok:
+                    return r
+                adj, denom = r[0].comp, r[1]
+                left, right = _gp(x.comp, adj, sig), _gp(adj, x.comp, sig)
+                ctx.oblige('x * adj == denom (a scalar): polynomial identity over Q in the coefficients of a generic x',
+                           set(left) <= {0} and left.get(0, IP()) == denom, meta={'non_scalar_blades': sorted(set(left) - {0})[:8]})
+                ctx.oblige('adj * x == denom', set(right) <= {0} and right.get(0, IP()) == denom)
+                ctx.oblige('denom is not the zero polynomial', bool(denom))
+                return r
+            H.run_paths(fuc, f'd={d},signature={sig}', body)
+
+
+def vc_div_generic(H, tier='quick'):
+    """a / b on generic operands: codegen_inv(y, x, symbolic=True) returns (x * num, denom) with (x * num) * y == x * denom, i.e.
+    a / b == a * inverse(b) with the inverse on the right; every signature with d <= 3."""
+    fuc = H.fn(REL, 'codegen_inv')
+    for d in (1, 2, 3):
+        for sig in itertools.product([1, -1, 0], repeat=d):
+            def body(ctx, d=d, sig=list(sig)):
+                world, y = _generic(d, sig)
+                N = 2 ** d
+                x = RefMV(world, {k: IP.var(N + k) for k in range(N)})
+                r = H.closure(Interp(ctx, source_name=REL), fuc, {'Fraction': Frac})(y, x, symbolic=True)
+                ok = isinstance(r, Frac) and isinstance(r[0], RefMV) and isinstance(r[1], IP) and r[0].lazy is None
+                ctx.oblige('codegen_inv(y, x, symbolic=True) returns Fraction(x * num, denom)', bool(ok))
+                if not ok:
+                    return r
+                q, denom = r[0].comp, r[1]
+                back = _gp(q, y.comp, sig)
+                want = {k: v * denom for k, v in x.comp.items()}
+                bad = sorted(k for k in set(back) | set(want) if not (back.get(k, IP()) == want.get(k, IP())))
+                ctx.oblige('(x / y) * y == x: the quotient is x * inverse(y) (inverse on the right), as a polynomial identity', not bad,
+                           meta={'differing_blades': bad[:8]})
+                return r
+            H.run_paths(fuc, f'div,d={d},signature={list(sig)}', body)
